@@ -1723,6 +1723,29 @@ func (w *w1World) checkLiveness(cl *w1SimClient) {
 			s.Violate("C36", "no-pong-wrong", "no-pong disconnect without an unanswered ping", "client %d closed with no-pong at %v; pings at %v, pong timeout %v", cl.idx, closedAt, pings, pongTO)
 		}
 	}
+	// --- subscription expiry with server-side refresh: the OnSubRefresh handler of this
+	// world always prolongs, so such a subscription is never ended as expired - also on a
+	// connection whose own refresh mode is client-side
+	for _, f := range cl.frames {
+		if f.Kind == "push:unsub" && chHas(f.Ch, 'Y') {
+			s.Probe("c36_server_refreshed_sub_ended")
+			if f.Code == 2501 {
+				consulted := 0
+				for _, cb := range cl.cbs {
+					if cb.Kind == "sub_refresh" && cb.Ch == f.Ch && cb.Seq < f.Seq {
+						consulted++
+					}
+				}
+				s.Violate("C36", "sub-expired-despite-server-refresh", "subscription with server-side refresh ended as expired although its refresh handler prolongs it", "client %d %s: unsubscribe push code 2501 at %v, OnSubRefresh consulted %d times before (connection client-side refresh=%v)", cl.idx, f.Ch, f.At, consulted, cfg.CSR)
+			}
+		}
+	}
+	for _, cb := range cl.cbs {
+		if cb.Kind == "sub_refresh" && chHas(cb.Ch, 'Y') {
+			s.Probe("c36_server_side_sub_refresh_consulted")
+			break
+		}
+	}
 	// --- connection expiry
 	if cl.spec.ExpireInSec > 0 && cl.onConnectRan {
 		var connectAt time.Duration
